@@ -389,6 +389,45 @@ fn Quote(accounts: &mut QuoteAccounts) -> Result<()> {
     Ok(())
 }
 
+// ------------------------------------------------------------------------------------------ runtime seeds
+/// The key the probe assigns to the instruction account at field path `path` (segments separated by spaces, from the
+/// instruction's root) - lib/props/c17.py computes the same function.
+pub fn c17_key_of(path: &str) -> Pubkey {
+    let mut b = [0u8; 32];
+    for (i, c) in path.bytes().enumerate() {
+        b[i % 32] = b[i % 32].wrapping_mul(31).wrapping_add(c);
+    }
+    b[31] = path.len() as u8;
+    Pubkey::new_from_array(b)
+}
+/// What the RUNTIME hashes for every seeded instruction account of this program when the accounts carry the keys
+/// `c17_key_of(path)`: (instruction, field path of the seeded account, `GetSeeds::seeds()` of the seeds value its
+/// `#[validate(arg = Seeds(..))]` attribute builds - each row mirrors that attribute, written out by hand).  The IDL's
+/// find-seeds of the same account, resolved over the same keys, have to give the same byte strings: a client derives the
+/// address from the IDL, `Seeded` validation accepts only the address of these.
+pub fn c17_runtime_seeds() -> Vec<(&'static str, &'static str, Vec<Vec<u8>>)> {
+    let k = c17_key_of;
+    fn own<S: GetSeeds>(s: S) -> Vec<Vec<u8>> {
+        s.seeds().iter().map(|x| x.to_vec()).collect()
+    }
+    let vault = |owner: &str| own(VaultSeeds { owner: k(owner) });
+    let config = |admin: &str| own(ConfigSeeds { admin: k(admin) });
+    vec![
+        ("OpenLedger", "ledger", own(LedgerSeeds { admin: k("admin"), owner: k("owner"), series: LEDGER_SERIES })),
+        ("MoveFunds", "admin_vault", vault("owner")),
+        ("MoveFunds", "source vault", vault("source owner")),
+        ("MoveFunds", "source config", config("admin")),
+        ("MoveFunds", "dest vault", vault("dest owner")),
+        ("MoveFunds", "dest config", config("admin")),
+        ("MoveFunds", "receipt", own(ReceiptSeeds { from: k("source vault"), to: k("dest vault") })),
+        ("Settle", "legs source vault", vault("legs source owner")),
+        ("Settle", "legs source config", config("admin")),
+        ("Settle", "legs dest vault", vault("legs dest owner")),
+        ("Settle", "legs dest config", config("admin")),
+        ("Settle", "legs escrow", own(EscrowSeeds { owner: k("legs source owner"), admin: k("admin") })),
+    ]
+}
+
 /// The FULL layouts of the types above as the runtime (de)serialises them, written by hand from the declarations
 /// (nothing here is derived from the IDL): per type its kind ("args" = borsh instruction data after the discriminant,
 /// "account" = account data after the discriminant) and its layout
